@@ -50,7 +50,8 @@ def schema_for(op: str, tier: str, constraint: Any) -> List[SC.Schema]:
     if op in ("gelu", "silu", "softmax"):
         return SC.elementwise_schemas(op, "quick", constraint)[:2]
     if op == "matmul":
-        return SC.matmul_schemas(tier, constraint)[1:3]
+        ms = SC.matmul_schemas(tier, constraint)
+        return ms[1:3] + [s_ for s_ in ms if s_.note == "mixed-rank"]
     if op in ("linear", "linear_readout"):
         return [s for s in SC.linear_schemas(tier, constraint, fn=op) if "lead=2" in s.name]
     if op == "conv1d":
@@ -160,7 +161,7 @@ def check(report: Report, repo: Repo) -> None:
                 for c1 in s1.cases:
                     c0 = next((c for c in s0.cases if c.guard == c1.guard), s0.cases[0])
                     base_scales = [c0.out_fwd] + [one_pair(c0, p) for p in group]
-                    if op in ("matmul", "linear", "linear_readout", "conv1d", "add"):
+                    if op in ("matmul", "linear", "linear_readout", "conv1d", "add") and sch_none.note != "mixed-rank":
                         # ideal (unconstrained) scales from the C03 term-count oracle
                         from .c03 import oracle as ideal
 
@@ -175,6 +176,11 @@ def check(report: Report, repo: Repo) -> None:
                     for p in group:
                         got = one_pair(c1, p)
                         report.add("R4-group", f"{cons}::scale_bwd({p})", TM.expr_equal(got, exp) if got is not None else False, f"{sch_c.name}: constrained grad scale of '{p}' == {name}(unconstrained scales)", fmt(got), fmt(exp))
+                    for p in group:
+                        occ = c1.operands.get(p, [])
+                        kinds = [tuple(o for o in ops_ if o.startswith("scale:")) for _f, _b, ops_ in occ]
+                        okk = all(ks == ("scale:b",) for ks in kinds) and bool(kinds)
+                        report.add("R4-group", f"{cons}::scale_bwd({p})::placement", okk, f"{sch_c.name}: the constrained operand carries exactly one backward-only scale (a forward factor on an operand leaks into the other operand's gradient)", str(kinds), "[('scale:b',)]", nontrivial=False)
                     for p in UNCONSTRAINED.get(op, []):
                         g0, g1 = one_pair(c0, p), one_pair(c1, p)
                         if g0 is None and g1 is None:
@@ -191,4 +197,8 @@ def check(report: Report, repo: Repo) -> None:
                 for p in group:
                     got = one_pair(c, p)
                     report.add("R4-fixed", f"{FUNCTIONAL}::{op}::scale_bwd({p})", TM.expr_equal(got, c.out_fwd) if got is not None else False, f"{sch.name}: fixed-constraint op uses one value for output and every operand gradient", fmt(got), fmt(c.out_fwd))
+    # fixed-constraint residual ops: complementary weights, same tau, same role order (C06's rules)
+    from .c06 import check_residual
+
+    check_residual(report, repo)
     report.floor("op x constraint summaries", n_ops, 50)
